@@ -298,7 +298,6 @@ pub fn rename_keywords(field_name: &str) -> &str {
         "break" => "r#break",
         "override" => "r#override",
         "continue" => "r#continue",
-        "crate" => "r#crate",
         "else" => "r#else",
         "enum" => "r#enum",
         "extern" => "r#extern",
@@ -318,7 +317,34 @@ pub fn rename_keywords(field_name: &str) -> &str {
         "pub" => "r#pub",
         "ref" => "r#ref",
         "return" => "r#return",
-        "self" => "r#self",
+        "async" => "r#async",
+        "await" => "r#await",
+        "const" => "r#const",
+        "dyn" => "r#dyn",
+        "static" => "r#static",
+        "struct" => "r#struct",
+        "trait" => "r#trait",
+        "unsafe" => "r#unsafe",
+        "use" => "r#use",
+        "while" => "r#while",
+        "abstract" => "r#abstract",
+        "become" => "r#become",
+        "box" => "r#box",
+        "do" => "r#do",
+        "final" => "r#final",
+        "macro" => "r#macro",
+        "priv" => "r#priv",
+        "try" => "r#try",
+        "typeof" => "r#typeof",
+        "unsized" => "r#unsized",
+        "virtual" => "r#virtual",
+        "yield" => "r#yield",
+        "gen" => "r#gen",
+        // these cannot be raw identifiers
+        "crate" => "crate_",
+        "self" => "self_",
+        "Self" => "Self_",
+        "super" => "super_",
         _ => field_name,
     }
 }
